@@ -1553,6 +1553,52 @@ fn inserted_scenario(ctx: &mut Ctx) {
     trace_enable(was);
 }
 
+/// C13 for the lazily initialised wrapper: the value a loader made sits in an `OnceInitCell<U, T>`
+/// until it is turned into a `T`; when a never initialised cell goes away (removed, cleared, dropped
+/// with its cache, handed out by load_owned and dropped by the caller) the loader's value is dropped
+/// exactly once -- also when `T` itself has nothing to drop.
+fn cell_drop_scenario(ctx: &mut Ctx) {
+    use assets_manager::OnceInitCell;
+    let was = trace_is_enabled();
+    trace_enable(false);
+    fn one<T: Send + Sync + 'static>(tname: &str, ctx: &mut Ctx) {
+        for way in ["remove", "clear", "drop of the cache", "load_owned, dropped by the caller"] {
+            let mem = Mem::new_silent(false);
+            mem.write("k", "x", b"1");
+            let mut cache = AssetCache::without_hot_reloading(mem.clone());
+            let _ = take_ledger();
+            let ok = if way.starts_with("load_owned") {
+                cache.load_owned::<OnceInitCell<TIntS, T>>("k").is_ok()
+            } else {
+                cache.load::<OnceInitCell<TIntS, T>>("k").is_ok()
+            };
+            if !ok {
+                continue;
+            }
+            match way {
+                "remove" => {
+                    cache.remove::<OnceInitCell<TIntS, T>>("k");
+                }
+                "clear" => cache.clear(),
+                _ => {}
+            }
+            drop(cache);
+            let d = take_ledger();
+            if d.len() != 1 && ctx.ledger_violations.len() < 5 {
+                ctx.ledger_violations.push(format!(
+                    "OnceInitCell<U, {tname}> never initialised, gone through {way}: the loader's value was dropped {} times, expected 1",
+                    d.len()
+                ));
+            }
+        }
+    }
+    one::<u32>("u32", ctx);
+    one::<String>("String", ctx);
+    one::<()>("()", ctx);
+    let _ = take_ledger();
+    trace_enable(was);
+}
+
 /// C05 while the reloader is busy ('static mode): a slow reload is under way; meanwhile an asset is
 /// loaded for the first time (its registration waits in the cache-message channel), its file is
 /// edited and the event sent (it waits in the event channel).  Cache messages are looked at first
@@ -1684,6 +1730,7 @@ pub fn run(a: &Args) {
     let only: Option<usize> = a.get("only").and_then(|x| x.parse().ok());
     if only.is_none() {
         key_sweep(if a.thorough() { 40000 } else { 4000 }, &mut ctx);
+        cell_drop_scenario(&mut ctx);
         if mode != "cold" {
             wrapper_scenario(&mut ctx);
             inserted_scenario(&mut ctx);
